@@ -123,6 +123,7 @@ func (prop) Run(t *testing.T, s *sim.Sim, res *runner.Result) {
 				c := c
 				acts = append(acts, sim.Action{Key: "user edits claim " + c.Name, Weight: 5, Run: func() { st.edit(c, s.Tape) }})
 			}
+			acts = append(acts, sim.Action{Key: "the XR side records an external name on an XR", Weight: 2, Run: func() { st.nameXR(s.Tape) }})
 			return acts
 		},
 		Final: func(w *xrworld.W, wl *xrworld.Workload, quiet bool) {
@@ -155,6 +156,29 @@ func (st *state) mutate(c *claim, tp *sim.Tape) {
 	}
 	c.Size = int64(1 + tp.Next(3))
 	c.Mode = []string{"", "fast"}[tp.Next(2)]
+	// now and then the user gives the claim an external name of its own
+	if tp.Next(3) == 0 {
+		c.Annotations["crossplane.io/external-name"] = "claim-en-" + []string{"a", "b"}[tp.Next(2)]
+	}
+}
+
+// nameXR: the XR side (a function, a provider) records an external name on the
+// XR; from then on it is the XR's to keep.
+func (st *state) nameXR(tp *sim.Tape) {
+	xrs := st.w.XRObjects()
+	if len(xrs) == 0 {
+		return
+	}
+	x := xrs[tp.Next(len(xrs))].DeepCopy()
+	as := x.GetAnnotations()
+	if as == nil {
+		as = map[string]string{}
+	}
+	as["crossplane.io/external-name"] = fmt.Sprintf("xr-en-%d", tp.Next(3))
+	x.SetAnnotations(as)
+	if st.w.Direct.Update(context.Background(), x) == nil {
+		st.w.S.Probe("external-name-set-on-xr")
+	}
 }
 
 func (st *state) object(c *claim) *unstructured.Unstructured {
@@ -335,7 +359,19 @@ func (st *state) judgeClaimToXR(ck types.NamespacedName, cm map[string]any, e *s
 				w.S.Violate("C07/xr-owned-field-changed/compositionRevisionRef", fmt.Sprintf("the sync of claim %s changed the XR's automatically selected revision from %v to %v", ck, bv, xs["compositionRevisionRef"]))
 			}
 		}
-		ben := (&unstructured.Unstructured{Object: e.Before}).GetAnnotations()["crossplane.io/external-name"]
+		// the external name the XR had when this reconcile read it (a name the XR
+		// side records between that read and this write is not "existing" for it)
+		ben := ""
+		for i := len(w.Store.Log) - 1; i >= 0; i-- {
+			l := w.Store.Log[i]
+			if l.TaskID == e.TaskID && l.Key == e.Key && l.Err == nil && l.Injected == "" && l.After != nil && l.Seq < e.Seq && (l.Read || !l.DryRun) {
+				ben = (&unstructured.Unstructured{Object: l.After}).GetAnnotations()["crossplane.io/external-name"]
+				break
+			}
+		}
+		if ben != "" && (&unstructured.Unstructured{Object: e.Before}).GetAnnotations()["crossplane.io/external-name"] != ben {
+			ben = "" // the XR side changed it again meanwhile
+		}
 		if ben != "" && xu.GetAnnotations()["crossplane.io/external-name"] != ben {
 			w.S.Violate("C07/xr-external-name-changed", fmt.Sprintf("the sync of claim %s changed the XR's existing external name %q", ck, ben))
 		}
